@@ -146,29 +146,35 @@ ActiveAfter(j) ==
 JobsBound   == {JobOf(p) : p \in BoundNowPods}
 JobsEvicted == {JobOf(p) : p \in EvictedNow}
 AtCycleEnd == action = "end"
+\* pod sets of a job: its sub-groups, or the single default pod set
+PodSetsOf(j) ==
+  IF Len(J(j).subs) = 0 THEN {[pods |-> PodsOf(j), min |-> J(j).min]}
+  ELSE {[pods |-> {p \in PodsOf(j) : P(p).sub = k}, min |-> J(j).subs[k].min] : k \in 1..Len(J(j).subs)}
+ActiveIn(X) == Cardinality({p \in X : LET x == LastRelB(p) IN IF x = 0 THEN ActiveAtStart(p) ELSE BindOK(x)})
+AllSetsAtMin(j) == \A ps \in PodSetsOf(j) : ActiveIn(ps.pods) >= ps.min
 C03_BindReachesMin ==
-  (AtCycleEnd /\ ~failed) => \A j \in JobsBound \ JobsEvicted : ActiveAfter(j) >= J(j).min
+  (AtCycleEnd /\ ~failed) => \A j \in JobsBound \ JobsEvicted : AllSetsAtMin(j)
 \* evicted pods of j that the same statement nominates again ("moved" victims: the solver re-places
 \* victims, consolidation moves pods)
 MovedPods(j) == {p \in PodsOf(j) \cap EvictedNow :
                   \E i, k \in Dec : EvictOK(i) /\ D[i].p = p /\ Piped(k) /\ D[k].p = p /\ D[k].stmt = D[i].stmt}
 OnlyMoved(j) == (PodsOf(j) \cap EvictedNow) \subseteq MovedPods(j)
 C03_EvictShape ==
-  (AtCycleEnd /\ ~failed) => \A j \in JobsEvicted : ActiveAfter(j) = 0 \/ ActiveAfter(j) >= J(j).min \/ OnlyMoved(j)
+  (AtCycleEnd /\ ~failed) => \A j \in JobsEvicted : ActiveAfter(j) = 0 \/ AllSetsAtMin(j) \/ OnlyMoved(j)
 \* the same for jobs all of whose evicted pods are moved: the pods that stay plus the moved ones
 \* still leave the gang partially running until the moved pods are back
 C03_EvictShapeMoved ==
-  (AtCycleEnd /\ ~failed) => \A j \in JobsEvicted : OnlyMoved(j) => (ActiveAfter(j) = 0 \/ ActiveAfter(j) >= J(j).min)
+  (AtCycleEnd /\ ~failed) => \A j \in JobsEvicted : OnlyMoved(j) => (ActiveAfter(j) = 0 \/ AllSetsAtMin(j))
 \* if part of a gang has to wait for releasing capacity, the whole gang is nominated: a statement
 \* never both binds and nominates pods of a job that is below its minimum without those binds
-ActiveBefore(j, i) == \* really active pods of j just before decision i
-  Cardinality({p \in PodsOf(j) :
+ActiveBeforeIn(X, i, stmt) == \* really active pods of X just before decision i (binds of statement stmt excluded)
+  Cardinality({p \in X :
       \/ ActiveAtStart(p) /\ ~\E x \in 1..(i - 1) : EvictOK(x) /\ D[x].p = p
-      \/ \E x \in 1..(i - 1) : BindOK(x) /\ D[x].p = p /\ D[x].stmt # D[i].stmt})
+      \/ \E x \in 1..(i - 1) : BindOK(x) /\ D[x].p = p /\ D[x].stmt # stmt})
 C03_PipelineAll ==
   ~failed => \A i \in Dec : \A k \in Dec :
      (BindAny(i) /\ Piped(k) /\ D[i].stmt = D[k].stmt /\ D[i].stmt # 0 /\ JobOf(D[i].p) = JobOf(D[k].p))
-       => ActiveBefore(JobOf(D[i].p), Min2(i, k)) >= J(JobOf(D[i].p)).min
+       => \A ps \in PodSetsOf(JobOf(D[i].p)) : ActiveBeforeIn(ps.pods, Min2(i, k), D[i].stmt) >= ps.min
 
 (***************************************************************************)
 (* Queue tree and C08                                                      *)
